@@ -15,7 +15,7 @@ func TestCheck(t *testing.T) {
 			"Directed scenarios (both tiers): low-qps schema (1,2,5 qps) driven to an observed refusal -> no-op sync (must not refill) -> real change to (500|2000 qps) -> idle 20|50 ms -> immediate burst by 1|4 callers must admit min(burst', floor(qps'*t)), t counted from the later of Sync's return / last attempt's return. " +
 			"Directed single-field changes (both tiers): burst only / qps only / both, lowered (upper bound on everything that starts after Sync returned, callers keep attempting >= 10 ms) and raised (drain to refusal, idle, immediate burst must admit min(burst', floor(qps'*t)) which exceeds the old burst), 1 and 4 callers. " +
 			"Partial syncs (both tiers): the (qps,burst) change is delivered in an object whose serving key pair / client CA / endpoint list cannot be applied, to a bare ClusterInfo and through the real controller; once that Sync returned an error the bucket must obey the new values (upper bound when lowered, lower bound after drain+idle when raised). " +
-			"A sample runs through the real handler chain (HTTP, stub upstream): same upper bound on (request sent, response received) intervals and every non-forwarded request must be a 429 Status. " +
+			"A sample runs through the real handler chain (HTTP, stub upstream): half of the requests on the events resource; judged by request id against the stub log once the gateway is idle: same upper bound on (request sent, response received) intervals of what the stub received, every non-forwarded request must be a 429 Status and every request answered 429 must have reached no stub. " +
 			"Non-trivial = the run saw refusals and more than burst admissions; distinct = hash of the case and its counts.")
 		r.Assume("the harness clock (time.Since, monotonic) and the bucket's clock (time.Now, monotonic reading) advance at the same rate")
 		r.Assume("slack 1e-6 tokens covers float64 rounding inside the bucket; qps values are integers < 2^24 so the float32 conversion in NewTokenBucketRateLimiter is exact")
@@ -31,5 +31,6 @@ func TestCheck(t *testing.T) {
 		r.Require(r.Counter("single_field_scenarios") >= 16 && r.Counter("single_field_raise_requiring_more_than_old_burst") >= 4, "too few single-field reconfiguration scenarios")
 		r.Require(r.Counter("partial_sync_cases") >= 12, "too few partial-sync cases in which the faulty part really failed the sync")
 		r.Require(r.Counter("e2e_refusals_429") >= 20 && r.Counter("e2e_forwarded") >= 10, "too few end-to-end events")
+		r.Require(r.Counter("e2e_refusals_429_on_events") >= 10, "too few refusals on the events resource end to end")
 	})
 }
